@@ -87,6 +87,7 @@ class Result:
         self.logs = []          # per rank: list[Event]
         self.san = []           # sanitizer report texts
         self.stderr = ""
+        self.stderr_full = ""
         self.wall = 0.0
 
     # -- convenience views
@@ -122,6 +123,9 @@ def run_case(case, bld, workdir, keep=False, extra_env=None):
     outdir = os.path.join(workdir, case.name)
     shutil.rmtree(outdir, ignore_errors=True)
     os.makedirs(outdir)
+    for d in (case.env.get("VERIF_MKDIR") or "").split(","):
+        if d:
+            os.makedirs(os.path.join(outdir, d), exist_ok=True)
     spath = os.path.join(outdir, "script")
     with open(spath, "w") as f:
         f.write(case.script_text().replace("@OUT@", outdir))
@@ -158,6 +162,30 @@ def run_case(case, bld, workdir, keep=False, extra_env=None):
             res.san.append(open(fn, errors="replace").read()[:20000])
         except OSError:
             pass
+    full_err = (se or b"").decode(errors="replace")
+    res.stderr_full = full_err[:200000]
+    # UBSan reports (alignment is built recoverable so that the run continues) arrive on stderr, one block each
+    blocks, cur = [], None
+    for ln in full_err.split("\n"):
+        if "runtime error:" in ln or "ERROR: AddressSanitizer" in ln:
+            if cur:
+                blocks.append("\n".join(cur))
+            cur = [ln]
+        elif cur is not None:
+            if ln.startswith(" ") or ln.startswith("0x") or ln.startswith("#") or ln.startswith("=="):
+                if len(cur) < 60:
+                    cur.append(ln)
+            else:
+                blocks.append("\n".join(cur))
+                cur = None
+    if cur:
+        blocks.append("\n".join(cur))
+    seen = set(san_key(t) for t in res.san)
+    for t in blocks:
+        k = san_key(t, full_err)
+        if k not in seen:
+            seen.add(k)
+            res.san.append(t[:6000])
     return res
 
 
@@ -185,7 +213,7 @@ def run_cases(cases, bld, workdir, jobs=None, progress=None):
     return results
 
 
-def san_key(text):
+def san_key(text, context=""):
     """stable key of a sanitizer report: kind + first PnetCDF frame (function, file)"""
     kind = "unknown"
     m = re.search(r"ERROR: AddressSanitizer: ([\w-]+)", text)
@@ -210,7 +238,21 @@ def san_key(text):
         m = re.search(r"([\w.]+\.[ch]):\d+:\d+: runtime error", text)
         if m:
             frame = m.group(1)
-    return kind + "|" + frame
+    via = ""
+    m = re.search(r"#\d+ 0x[0-9a-f]+ in (ncbbio_log_flush_core|ncmpio_intra_node\w*)", text)
+    if m:
+        via = "|via=" + m.group(1)
+    elif "#0 " not in text and context:
+        # report printed without (or separated from) its stack by interleaved output of several ranks: use the run's
+        # other reports of the same source line as context
+        loc = re.search(r"([\w.]+\.c:\d+):\d+: runtime error", text)
+        if loc:
+            for blk in context.split("runtime error:"):
+                pass
+        m = re.search(r"in (ncbbio_log_flush_core)", context)
+        if m and "ncx.c" in text:
+            via = "|via=" + m.group(1)
+    return kind + "|" + frame + via
 
 
 def save_replay(check_id, res, why):
